@@ -5,11 +5,12 @@
    generated move and is in check (C12_honest); if a generated move mates and the first pass completes, the
    search returns a mating move with the mover's mate-in-one score at depth 0 (C12_finds).
    `mates_now` holds for a mating move unless it is a capture leaving insufficient material (the shortcut runs
-   first in the code; no such position is a mate in real chess - not proved).  Lifting "no generated move and
-   in check" to Rules.is_mate is C01/C03.  Also decided per run on mate-in-one roots
+   first in the code; no such position is a mate in real chess - not proved).  "no generated move and in check" IS Rules.is_mate on every reachable board
+   (C01/C03, closed in this round): a reported mate-in-one score comes with a move that is legal under the rules and
+   after which the opponent is checkmated by the rules (C12_honest_rules).  Also decided per run on mate-in-one roots
    (zero, one, several mating moves) against the rules-level enumeration of mating moves. *)
 From Coq Require Import NArith ZArith List Bool.
-From Chess Require Import base.Types model.Score model.Board model.Search spec.Rules spec.GameTree proofs.GameTreeFacts proofs.SearchOrder model.MoveGen spec.IterSpec proofs.SearchFacts.
+From Chess Require Import base.Types model.Score model.Board model.Search spec.Rules spec.GameTree proofs.GameTreeFacts proofs.SearchOrder model.MoveGen spec.IterSpec proofs.SearchFacts proofs.Reachable proofs.ReachableMore.
 Local Open Scope N_scope.
 
 Theorem C12_white_mate_in_one_is_best : forall s, realistic s -> cmp s (SWhiteMateIn 1) <> Gt.
@@ -36,3 +37,10 @@ Theorem C12_finds : forall k tf passes fuel root sc best st' m,
              mg_is_empty (legals_gen (Apply.apply root m')) = true /\ Board.in_check (Apply.apply root m') = true.
 Proof. exact search_finds_mate1_all. Qed.
 Print Assumptions C12_finds.
+
+Theorem C12_honest_rules : forall k tf passes fuel root m d f, Reachable root ->
+  b_half root < 65535 -> b_full root < 65535 ->
+  Search.search k tf passes fuel root = (Some m, mate_score (opp (b_turn root)) 1, d, f) ->
+  In m (legal_moves (Board.abs root)) /\ is_mate (make (Board.abs root) m) = true.
+Proof. exact search_mate1_honest_make. Qed.
+Print Assumptions C12_honest_rules.
